@@ -73,6 +73,7 @@ deriving Repr, BEq
 inductive Filter where
   | all
   | cmp (f : String) (op : Op) (l : Lit)
+  | term (w : String)          -- free text: some field holds `w` as a whole space-delimited token (`*` wildcards allowed)
   | and (a b : Filter)
   | or (a b : Filter)
   | not (a : Filter)
@@ -130,11 +131,22 @@ def evalCmp (v : Option Val) (op : Op) (l : Lit) : Tri × Classes :=
       | _ => (.either, ["string-order-comparison"])
     | some _ => (.either, ["non-string-value-string-literal"])
 
+/-- text of a value as free-text search sees it -/
+def Val.text : Val → String
+  | .int i => toString i
+  | .dec _ t => t
+  | .str s => s
+  | .bool b => if b then "true" else "false"
+
+def termMatches (w : String) (e : Event) : Bool :=
+  e.fields.any (fun (_, v) => let t := v.text; glob w t || (t.splitOn " ").any (fun tok => glob w tok))
+
 /-- `neg` = the comparison sits under an odd number of NOTs.  The statement fixes NOT as complement
 for events that HAVE the compared field; for an event lacking the field the engine evaluates the
 negated operator on "absent" (only `!=` holds), Splunk would include the event: left to the engine. -/
 def evalFilterAux (e : Event) (neg : Bool) : Filter → Tri × Classes
   | .all => (.yes, [])
+  | .term w => (Tri.ofBool (termMatches w e), if neg then ["free-text-negation"] else [])
   | .cmp f op l =>
     match e.get f with
     | none => if neg then (.either, []) else evalCmp none op l
@@ -148,6 +160,7 @@ def evalFilter (e : Event) (f : Filter) : Tri × Classes := evalFilterAux e fals
 /-- the fields a filter mentions -/
 def Filter.fields : Filter → List String
   | .all => []
+  | .term _ => []
   | .cmp f _ _ => [f]
   | .and a b => a.fields ++ b.fields
   | .or a b => a.fields ++ b.fields
